@@ -988,7 +988,9 @@ class Executor:
             if "#d" in v:
                 v = v["#d"]
             else:
-                raise Unsupported("cast of aggregate")
+                # an opaque value (result of an unmodelled call) cast to an integer: any value of that width
+                self.ctx.n += 1
+                return z3.BitVec(f"cast.of.opaque#{self.ctx.n}", w)
         sw = v.size()
         if sw == w:
             return v
